@@ -400,3 +400,6 @@ def obligations(tier):
         REPLAYS[f"quadform-d{dim}"] = replay_quadform
     obs.append(Ob("flags", o_flags, "checkManeuverDetection raises exactly the documented flags", 120))
     return obs
+
+
+ASSUMPTIONS.append("chiSquareQuadraticForm is explored on every path; tolerance comparisons (numpy.isclose/allclose, math.isclose) enter as their defining formulas; on a path without the inverse contract the value is compared with r^T y for the solution y of S y = r (S positive definite, d <= 2)")
